@@ -999,6 +999,14 @@ func (vm *VirtualMachine) callFunction(
 	if err := checkCallArgs(fn, argc); err != nil {
 		return nil, err
 	}
+	// The table of frames is tested here and not left to the index: an
+	// overflow is then an error that the calls on the way return one by one,
+	// each running what it deferred after its own part of the native stack
+	// has been given back, and not a Go panic that runs all of it on top of
+	// the stack that it is unwinding
+	if vm.fp+1 >= MaxFrameDepth {
+		return nil, errz.EvalErrorf("eval error: calls are nested too deeply (limit %d)", MaxFrameDepth)
+	}
 
 	baseFP := vm.fp
 	baseIP := vm.ip
@@ -1257,7 +1265,11 @@ func (vm *VirtualMachine) importModule(ctx context.Context, name string) (*objec
 	}
 	vm.importing[name] = true
 	defer delete(vm.importing, name)
-	// Activate a new frame to evaluate the module code
+	// Activate a new frame to evaluate the module code (as in callFunction:
+	// after testing that there is one)
+	if vm.fp+1 >= MaxFrameDepth {
+		return nil, errz.EvalErrorf("eval error: calls are nested too deeply (limit %d)", MaxFrameDepth)
+	}
 	baseFP := vm.fp
 	baseIP := vm.ip
 	baseSP := vm.sp
